@@ -155,10 +155,11 @@ pub fn run_case(id: &str, tier: Tier, s: &Script) -> CaseResult {
         let mut results: Vec<(u64, CaseResult)> = vec![];
         for j in 0..k {
             let mut sj = s.clone();
-            sj.layout_seed = s.layout_seed.wrapping_add((j as u64).wrapping_mul(0xA24B_AED4_963E_E407));
+            let seed_of_layout = s.layout_seed.wrapping_add((j as u64).wrapping_mul(0xA24B_AED4_963E_E407));
+            sj.arena_seed = Some(seed_of_layout);
             let r = run_one(id, p.views, &sj);
             match r.outcome {
-                Outcome::Pass | Outcome::OtherView | Outcome::Violation => results.push((sj.layout_seed, r)),
+                Outcome::Pass | Outcome::OtherView | Outcome::Violation => results.push((seed_of_layout, r)),
                 _ => return r,
             }
         }
